@@ -19,6 +19,8 @@ type Config struct {
 	LazyIf      bool
 	Threads     bool
 	MaxPreempt  int
+	SchedRR     bool
+	TimeZero    bool
 	Tier        string
 	Seed        uint64
 	Replace     map[string]string
